@@ -5,6 +5,7 @@
 package c03
 
 import (
+	"bufio"
 	"bytes"
 	"encoding/hex"
 	"encoding/json"
@@ -76,8 +77,8 @@ func (prop) Plan(tier string) []core.Phase {
 
 func (prop) Describe() core.Description {
 	return core.Description{
-		Level: "fault_enumeration",
-		Rule: "A scenario is 1-4 generated model geometries (7 types, nested collections, XY/XYZ/XYM/XYZM plus unsupported layouts, empty members, special floats, SRIDs up to 2^32-1), a codec (wkb, wkb NaN mode, ewkb) x byte order, and a closed fault plan. Phase 'enum': for ONE geometry every writer failure offset k in [0,len) (sticky short, sticky whole-call, transient), every reader split position, every stall position, every reader error offset and every truncation offset is executed (capped at 768 bytes; larger encodings get all call boundaries plus 64 sampled offsets). Phase 'random': several concatenated geometries plus junk through one drawn read plan and one drawn writer failure. A run is non-trivial when at least one fault directive fired inside an in-flight encode or decode of a non-empty encoding (counted from the reader/writer call records, never from configuration).",
+		Level:        "fault_enumeration",
+		Rule:         "A scenario is 1-4 generated model geometries (7 types, nested collections, XY/XYZ/XYM/XYZM plus unsupported layouts, empty members, special floats, SRIDs up to 2^32-1), a codec (wkb, wkb NaN mode, ewkb) x byte order, and a closed fault plan. Phase 'enum': for ONE geometry every writer failure offset k in [0,len) (sticky short, sticky whole-call, transient), every reader split position, every stall position, every reader error offset and every truncation offset is executed (capped at 768 bytes; larger encodings get all call boundaries plus 64 sampled offsets). Phase 'random': several concatenated geometries plus junk through one drawn read plan and one drawn writer failure. A run is non-trivial when at least one fault directive fired inside an in-flight encode or decode of a non-empty encoding (counted from the reader/writer call records, never from configuration).",
 		StateMeasure: "distinct (codec, byte order, type tree shape with layouts and emptiness pattern, fault kinds fired) tuples",
 		Assumptions: []string{
 			"the reference codec sim/refwkb (written from the ISO/OGC WKB and PostGIS EWKB documents over the neutral model, never calling go-geom) is correct",
@@ -88,7 +89,7 @@ func (prop) Describe() core.Description {
 		RealComponents: []string{"go-geom root package (constructors, Push, accessors)", "encoding/wkb", "encoding/ewkb", "encoding/wkbcommon", "encoding/wkbhex", "encoding/ewkbhex", "wkb/ewkb database/sql Scanner/Valuer wrappers", "stdlib io, encoding/binary, bytes, encoding/hex"},
 		StubComponents: []string{"io.Writer (simio.Writer: failure offset, short/whole-call, sticky/transient; optionally also io.ByteWriter or io.StringWriter)", "io.Reader (simio.Reader: chunking, stalls, data+EOF, error at offset, truncation; optionally also io.ByteReader)", "database/sql driver (Scan/Value are called directly)"},
 		FaultKinds:     []string{"write-fail-sticky-short", "write-fail-sticky-whole", "write-fail-transient", "read-split", "read-stall", "read-data+eof", "read-error", "read-error-with-data", "read-truncate"},
-		Probes:         []string{"probe:error-inside-count", "probe:null-through-wrapper", "probe:untyped-wrapper-value", "probe:split-inside-type-word", "probe:stall-before-byte-order", "probe:srid>=2^31", "probe:xdr+zm+empty-member", "probe:nested-collection", "probe:mixed-layout-collection", "probe:empty-point", "probe:rejected-unsupported-layout", "probe:rejected-empty-point", "probe:concatenated>=2", "probe:enum-capped", "probe:member-srid-round-trip", "probe:result-rechecked-after-later-calls", "probe:error-kind-temporary", "probe:error-kind-timeout", "probe:error-kind-unexpected-eof", "probe:error-kind-closed-pipe", "probe:error-kind-no-progress", "probe:element-limits-configured", "probe:wrapper-scanned-twice", "probe:wkb-of-geometry-with-srid", "probe:reader-with-ReadByte", "probe:writer-with-byte", "probe:writer-with-string"},
+		Probes:         []string{"probe:error-inside-count", "probe:read-through-bufio.Reader", "probe:null-through-wrapper", "probe:untyped-wrapper-value", "probe:split-inside-type-word", "probe:stall-before-byte-order", "probe:srid>=2^31", "probe:xdr+zm+empty-member", "probe:nested-collection", "probe:mixed-layout-collection", "probe:empty-point", "probe:rejected-unsupported-layout", "probe:rejected-empty-point", "probe:concatenated>=2", "probe:enum-capped", "probe:member-srid-round-trip", "probe:result-rechecked-after-later-calls", "probe:error-kind-temporary", "probe:error-kind-timeout", "probe:error-kind-unexpected-eof", "probe:error-kind-closed-pipe", "probe:error-kind-no-progress", "probe:element-limits-configured", "probe:wrapper-scanned-twice", "probe:wkb-of-geometry-with-srid", "probe:reader-with-ReadByte", "probe:writer-with-byte", "probe:writer-with-string"},
 	}
 }
 
@@ -623,6 +624,9 @@ func (prop) Execute(scAny any, phase string, log *core.Log) core.Result {
 	if ok {
 		ok = readBytesBuffer(&res, lib, encs, stream)
 	}
+	if ok && s.Mode != "enum" {
+		ok = readBufio(&res, lib, encs, stream)
+	}
 	if ok {
 		for _, e := range encs {
 			if !wrappers(&res, log, lib, s, e) {
@@ -1064,6 +1068,42 @@ func readStream(res *core.Result, log *core.Log, lib wkbadapt.Lib, encs []*enc, 
 		}
 		e.hold(g)
 	}
+	return true
+}
+
+// readBufio reads the same concatenated stream through a *bufio.Reader the
+// caller put in front of its source - a reader that also offers Peek, Discard
+// and ReadByte - with a buffer that may be much smaller than a coordinate
+// array. What counts as consumed is what the bufio.Reader no longer holds.
+func readBufio(res *core.Result, lib wkbadapt.Lib, encs []*enc, stream []byte) bool {
+	size := []int{16, 24, 64, 1000, 4095, 4096, 8192}[len(stream)%7]
+	src := bytes.NewReader(stream)
+	br := bufio.NewReaderSize(src, size)
+	cum := 0
+	for i, e := range encs {
+		cum += len(e.ref)
+		var g geom.T
+		var err error
+		if p := core.Guard(func() { g, err = lib.Read(br) }); p != "" {
+			res.Fail("panic", "panic:read:"+core.PanicSite(p), "Read from a bufio.Reader of %d bytes panicked on geometry %d: %s", size, i, p)
+			return false
+		}
+		if err != nil || g == nil {
+			res.Fail("read-failed", "read-failed:bufio.Reader", "Read of geometry %d from a bufio.Reader of %d bytes failed: %v; model %s", i, size, err, e.m)
+			return false
+		}
+		obs, oerr := mgeom.Observe(g)
+		if oerr != nil || mgeom.Diff(obs, e.expect) != "" {
+			res.Fail("decoded-differs", "decoded-differs:bufio.Reader", "Read of geometry %d from a bufio.Reader of %d bytes observed %s (%v), expected %s", i, size, obs, oerr, e.expect)
+			return false
+		}
+		if got := len(stream) - src.Len() - br.Buffered(); got != cum {
+			res.Fail("consumed-wrong", "consumed-wrong:bufio.Reader", "after Read of geometry %d the bufio.Reader (%d bytes) stands at %d, the geometry ends at %d", i, size, got, cum)
+			return false
+		}
+		e.hold(g)
+	}
+	res.Count("probe:read-through-bufio.Reader", 1)
 	return true
 }
 
